@@ -211,6 +211,37 @@ def parse_values(cmd, nparams):
     return cmd
 
 
+MODS = ["", "alpha", "beta", "util", "alpha::util", "beta::util", "alpha::beta"]
+
+
+def module_files():
+    """Seven modules whose names repeat at different places of the tree, each with a variable of its own and the same
+    recipe `show p q=mv`: an omitted `q` is the value of the variable of THAT module."""
+    shell = 'set shell := ["%s", "-c"]\n' % C.VSH
+    body = lambda m: "mv := 'var-of-%s'\n\nshow p q=mv:\n  [M %s|{{p}}|{{q}}]\n" % (m or "root", m)
+    return {"justfile": shell + "mod alpha 'alpha.just'\nmod beta 'beta.just'\nmod util 'root_util.just'\n\n" + body(""),
+            "alpha.just": shell + "mod util 'alpha_util.just'\nmod beta 'alpha_beta.just'\n\n" + body("alpha"),
+            "beta.just": shell + "mod util 'beta_util.just'\n\n" + body("beta"),
+            "root_util.just": shell + body("util"), "alpha_util.just": shell + body("alpha::util"),
+            "beta_util.just": shell + body("beta::util"), "alpha_beta.just": shell + body("alpha::beta")}
+
+
+def run_module_defaults(invs):
+    with C.scratch("c05m") as d:
+        for name, text in module_files().items():
+            open(os.path.join(d, name), "w").write(text)
+        logp = os.path.join(d, "vsh.log")
+        env = dict(C.BASE_ENV)
+        env.update({"HOME": d, "TMPDIR": d, "VSH_LOG": logp})
+        argv = []
+        for m, form, words in invs:
+            path = (m.split("::") if m else []) + ["show"]
+            argv += ([" ".join(path)] if False else (path if form == "spaced" else ["::".join(path)])) + words
+        p = subprocess.run([C.JUST] + argv, cwd=d, env=env, stdin=subprocess.DEVNULL, stdout=subprocess.PIPE, stderr=subprocess.PIPE, timeout=30)
+        got = [e["argv"][2][3:-1].split("|") for e in C.read_vsh_log(logp) if len(e["argv"]) > 2 and e["argv"][2].startswith("[M ")]
+        return {"argv": argv, "rc": p.returncode, "ran": got, "stderr": p.stderr.decode("utf-8", "replace")[-300:]}
+
+
 def run(report):
     tier = report.tier
     just, bt = C.build_just()
@@ -334,6 +365,21 @@ def run(report):
             continue
         if len(samples) < 4 and len(want) >= 2 and any(len(g["values"]) >= 2 for g in want):
             samples.append({"argv": words, "groups": want, "justfile": t.files["justfile"]})
+    # modules whose names repeat across the tree: the default of an omitted parameter is evaluated in the recipe's own
+    # module, whatever ran before it on the same command line (both ways of writing the path)
+    minvs = []
+    for m1 in MODS:
+        for m2 in MODS:
+            if m1 != m2:
+                minvs.append([(m1, "colons", ["w1", "w2"]), (m2, "colons", ["w3"])])
+                minvs.append([(m1, "spaced", ["w1", "w2"]), (m2, "spaced", ["w3"])])
+    for invs, r in zip(minvs, C.pmap(run_module_defaults, minvs)):
+        want = [[m, ws[0], ws[1] if len(ws) > 1 else "var-of-%s" % (m or "root")] for m, _, ws in invs]
+        stats["module_default_command_lines"] = stats.get("module_default_command_lines", 0) + 1
+        if r["rc"] != 0 or r["ran"] != want:
+            report.failure("c05-module-default", "recipes of modules with repeating names: ran %s, documented %s" % (r["ran"], want),
+                           {"files": module_files(), "argv": r["argv"], "observed": {"ran": r["ran"], "rc": r["rc"], "stderr": r["stderr"]}, "expected": want})
+            break
     # Positional::from_values in-process (hook `positional`) against Just.Args.positional and, for the first word, against the
     # character-level Just.Words.classify: every vector of up to three words over an alphabet of word shapes, search
     # directories included (which the runs above leave to C16)
@@ -410,7 +456,7 @@ def run(report):
     report.coverage.update({
         "evaluations": len(cases),
         "distinct_nontrivial": len(distinct),
-        "rule": "every analyzer-valid signature with <=3 parameters over {required, default, default referring to p0, +, *, * with default} x 0..5 words x {alone, followed by a second recipe, as default recipe, with an override, with an empty word in each position} (exhaustive) + random module trees (root / mod m / mod n, aliases to own recipes and to recipes one and two modules down, default recipes) x word vectors from an adversarial alphabet (recipe and module names, NAME=VALUE, ::-paths, empty word, words with spaces); distinct = distinct (files, argv)",
+        "rule": "every analyzer-valid signature with <=3 parameters over {required, default, default referring to p0, +, *, * with default} x 0..5 words x {alone, followed by a second recipe, as default recipe, with an override, with an empty word in each position} (exhaustive) + random module trees (root / mod m / mod n, aliases to own recipes and to recipes one and two modules down, default recipes) x word vectors from an adversarial alphabet (recipe and module names, NAME=VALUE, ::-paths, empty word, words with spaces) + seven modules whose names repeat across the tree, every ordered pair on one command line, the second invocation leaving a parameter to its default (a variable of its own module); distinct = distinct (files, argv)",
         "samples": samples,
         "exhaustive": True,
         "traces_validated_against_impl": len(cases),
